@@ -925,8 +925,20 @@ def process_models(ck, cases):
                     limits = case.get("limits")
                     with Recorder() as rec, warnings.catch_warnings():
                         warnings.simplefilter("ignore")
-                        ax = vc.plot_2D_isodensity(model, sample, semantics, swap_axis=swap, limits=limits,
-                                                   n_grid_steps=n_grid)
+                        if swap:
+                            # an axes supplied by the caller that is NOT pyplot's current axes (left panel of a
+                            # two-panel figure): everything must be drawn into it
+                            _, (ax_given, _ax_other) = plt.subplots(1, 2)
+                            ax = vc.plot_2D_isodensity(model, sample, semantics, swap_axis=swap, limits=limits,
+                                                       n_grid_steps=n_grid, ax=ax_given)
+                            if ax is not ax_given:
+                                bad.append(("plot_2D_isodensity", "draws_into_given_axes", "returned axes is not the supplied one"))
+                        else:
+                            ax = vc.plot_2D_isodensity(model, sample, semantics, swap_axis=swap, limits=limits,
+                                                       n_grid_steps=n_grid)
+                    if len(rec.contour) == 1 and rec.contour[0][0] is not ax:
+                        bad.append(("plot_2D_isodensity", "draws_into_given_axes",
+                                    f"swap_axis={swap}: the isodensity lines were drawn into another axes than the one supplied / returned"))
                     xi, yi = (1, 0) if swap else (0, 1)
                     # the sample scatter is drawn first (the deprecated CS.collections access adds further collections)
                     got = [np.asarray(np.ma.getdata(c.get_offsets()), dtype=float) for c in ax.collections[:1]
